@@ -815,3 +815,15 @@ Proof.
   destruct lines as [|l1 [|l2 ls]]; cbn [length] in Hl; try lia.
   rewrite app_nil_r. reflexivity.
 Qed.
+
+(* end to end: expand() under an indent syntax, for every abbreviation whose parsed tree is in the domain *)
+From Emmet Require Import model.MarkupResolve model.MarkupExpand.
+Theorem expand_indent_lines x abbr tree o :
+  markup_parse (xc_m x) abbr = Ok tree ->
+  syntax_opts (mc_syntax (xc_m x)) (xc_o x) = Some o ->
+  forallb node_wf tree = true ->
+  expand_markup_str x abbr = Ok (join (nlb (oc_fmt (xc_o x))) (flat_map (node_lines (xc_o x) o 0) tree)).
+Proof.
+  intros Hp Ho Hwf. unfold expand_markup_str, expand_markup. rewrite Hp. cbn [bind].
+  rewrite (indent_lines_syntax _ _ _ _ Ho Hwf). reflexivity.
+Qed.
